@@ -19,12 +19,18 @@ import (
 
 // C08: the executor never runs conflicting tasks concurrently or out of order.
 //
-// Gated mode (tie): each task body logs start, blocks on its own gate, logs end. Ops are
-// applied at quiescent points only; after each op the set of running bodies and
-// len(e.executable) are printed and compared with the Lean model (Driver/C08.lean).
-// Quiescence is detected by polling until the observation equals what a small sequential
-// mirror of the scheduler predicts (the mirror decides only *when* to sample; the judge is the
-// Lean model). Free mode: real timing, oracle on the start/end log + hang detector.
+// Gated mode (tie): each task body logs start, blocks on its own gate, logs end. Ops are applied
+// at quiescent points; after each op the harness prints the running bodies, len(e.executable)
+// and a dump of the executor's dependency state (per task: counter, executed, blocked, readers;
+// nodes), which the Lean driver (Driver/C08.lean, finest relation) must reproduce. The order
+// in which a completion sent newly executable tasks to the channel is OBSERVED (the channel is
+// drained and refilled at quiescence) and handed to the model as the `order` of its step.
+// `hold`/`unhold` take/release a task's own lock t.l from the harness (in-package), so that the
+// task's notification section blocks after its reader deregistrations ran: Run and other
+// completions are then interleaved with a half-finished completion.
+// Quiescence is detected by polling until counters equal what a small sequential mirror
+// predicts (the mirror decides only *when* to sample; the judge is the Lean model).
+// Free mode: real timing, oracle on the start/end log + hang detector.
 
 type c08Err struct{ id int }
 
@@ -46,21 +52,23 @@ type c08Ev struct {
 
 type c08MTask struct {
 	keys                      []c08Key
-	status                    int // 0 waiting 1 queued 2 running 3 done 4 skipped
+	status                    int // 0 waiting 1 queued 2 running 3 done 4 skipped 5 body over, notification pending
+	ran                       bool
 	deps                      int
 	blocked, readers, reading map[int]bool
 }
 
 type c08Mirror struct {
-	n      int
-	tasks  []*c08MTask
-	nodes  map[int]int
-	queue  []int
-	err    string
-	waited bool
+	workers int
+	tasks   []*c08MTask
+	nodes   map[int]int
+	queue   []int
+	err     string
+	waited  bool
+	held    int // task whose lock the harness holds, -1 = none
 }
 
-func (m *c08Mirror) executed(i int) bool { return m.tasks[i].status >= 3 }
+func (m *c08Mirror) executed(i int) bool { s := m.tasks[i].status; return s == 3 || s == 4 }
 
 func (m *c08Mirror) running() []int {
 	var out []int
@@ -70,6 +78,16 @@ func (m *c08Mirror) running() []int {
 		}
 	}
 	return out
+}
+
+func (m *c08Mirror) busy() int {
+	n := 0
+	for _, t := range m.tasks {
+		if t.status == 2 || t.status == 5 {
+			n++
+		}
+	}
+	return n
 }
 
 func (m *c08Mirror) run(keys []c08Key) {
@@ -109,40 +127,65 @@ func (m *c08Mirror) run(keys []c08Key) {
 	}
 }
 
-// complete returns the number of tasks it made executable
-func (m *c08Mirror) complete(d int, st int) int {
+// needsHeld: would Run(keys) have to take the lock the harness holds?
+func (m *c08Mirror) needsHeld(keys []c08Key) bool {
+	if m.held < 0 {
+		return false
+	}
+	for _, kr := range keys {
+		if lt, ok := m.nodes[kr.key]; ok {
+			if lt == m.held || (kr.perm != 1 && m.tasks[lt].readers[m.held]) {
+				return true
+			}
+		}
+	}
+	return false
+}
+
+func (m *c08Mirror) deregAll(d int) {
 	t := m.tasks[d]
 	for r := range t.reading {
 		delete(m.tasks[r].readers, d)
 	}
 	t.reading = map[int]bool{}
+}
+
+// notify returns the tasks it made executable (sorted; the real order is observed)
+func (m *c08Mirror) notify(d int) []int {
+	t := m.tasks[d]
 	var bl []int
 	for j := range t.blocked {
 		bl = append(bl, j)
 	}
 	sort.Ints(bl)
-	p := 0
+	var pushed []int
 	for _, j := range bl {
 		m.tasks[j].deps--
 		if m.tasks[j].deps <= 0 {
 			m.tasks[j].status = 1
 			m.queue = append(m.queue, j)
-			p++
+			pushed = append(pushed, j)
 		}
 	}
 	t.blocked = map[int]bool{}
-	t.status = st
-	return p
+	if t.ran {
+		t.status = 3
+	} else {
+		t.status = 4
+	}
+	return pushed
 }
 
-func (m *c08Mirror) settle(workers int) {
-	for len(m.queue) > 0 && len(m.running()) < workers {
+func (m *c08Mirror) settle() {
+	for len(m.queue) > 0 && m.busy() < m.workers {
 		j := m.queue[0]
 		m.queue = m.queue[1:]
 		if m.err == "" {
 			m.tasks[j].status = 2
 		} else {
-			m.complete(j, 4)
+			m.tasks[j].status, m.tasks[j].ran = 5, false
+			m.deregAll(j)
+			m.notify(j)
 		}
 	}
 }
@@ -168,8 +211,8 @@ type c08Case struct {
 	gates   []chan struct{}
 	fails   []bool
 	keys    [][]c08Key
+	ptr     []*task // task structs of the executor (nil for tasks without keys)
 	m       *c08Mirror
-	aborted bool
 	waitRes error
 	hung    bool
 	start   int  // op line of the `case` marker
@@ -229,11 +272,123 @@ func (c *c08Case) observe() ([]int, int) {
 	return out, len(c.e.executable)
 }
 
-// quiesce polls until the implementation shows the mirror's running set and queue length.
-func (c *c08Case) quiesce() string {
-	want, wantQ := c.m.running(), len(c.m.queue)
-	ws := c08Set(want)
-	wantOut := 0 // tasks whose completion section has not run
+// lock / unlock a task's mutex unless the harness already holds it
+func (c *c08Case) lockT(id int) {
+	if id != c.m.held {
+		c.ptr[id].l.Lock()
+	}
+}
+
+func (c *c08Case) unlockT(id int) {
+	if id != c.m.held {
+		c.ptr[id].l.Unlock()
+	}
+}
+
+// find locates the struct of the task just registered (it owns one of its keys or is a
+// reader of the owner).
+func (c *c08Case) find(id int, ks []c08Key) *task {
+	for _, k := range ks {
+		lt := c.e.nodes["k"+strconv.Itoa(k.key)]
+		if lt == nil {
+			continue
+		}
+		if lt.id == id {
+			return lt
+		}
+		if lt.id < len(c.ptr) && c.ptr[lt.id] == nil {
+			c.ptr[lt.id] = lt
+		}
+		c.lockT(lt.id)
+		rt := lt.readers[id]
+		c.unlockT(lt.id)
+		if rt != nil {
+			return rt
+		}
+	}
+	return nil
+}
+
+func c08Ids(m map[int]*task) string {
+	var l []int
+	for i := range m {
+		l = append(l, i)
+	}
+	sort.Ints(l)
+	return c08Set(l)
+}
+
+// dump prints the dependency state of the executor in the format of Driver/C08.lean.
+func (c *c08Case) dump() string {
+	var parts []string
+	owner := map[int]bool{}
+	for _, t := range c.e.nodes {
+		owner[t.id] = true
+	}
+	for id, ks := range c.keys {
+		// a task without keys, or an executed task that owns no key, is referenced by nothing in
+		// the executor any more (its struct may never have been reachable): no row
+		if len(ks) == 0 || (c.m.executed(id) && !owner[id]) {
+			continue
+		}
+		t := c.ptr[id]
+		if t == nil {
+			parts = append(parts, fmt.Sprintf("T%d=?", id))
+			continue
+		}
+		c.lockT(id)
+		ex := 0
+		if t.executed {
+			ex = 1
+		}
+		parts = append(parts, fmt.Sprintf("T%d=%d/%d/%s/%s", id, t.dependencies.Load(), ex, c08Ids(t.blocked), c08Ids(t.readers)))
+		c.unlockT(id)
+	}
+	var ns []string
+	var kk []int
+	for k := range c.e.nodes {
+		n, _ := strconv.Atoi(k[1:])
+		kk = append(kk, n)
+	}
+	sort.Ints(kk)
+	for _, k := range kk {
+		ns = append(ns, fmt.Sprintf("%d:%d", k, c.e.nodes["k"+strconv.Itoa(k)].id))
+	}
+	n := "-"
+	if len(ns) > 0 {
+		n = strings.Join(ns, ",")
+	}
+	return strings.Join(parts, " ") + " N=" + n
+}
+
+// deregVisible: every deregistration the mirror has performed is visible in the executor
+// (needed when a task's notification section is blocked by `hold`: the counters do not move).
+func (c *c08Case) deregVisible() bool {
+	h := c.m.held
+	if h < 0 || c.m.tasks[h].status != 5 {
+		return true
+	}
+	for id, t := range c.ptr {
+		if t == nil || id == h {
+			continue
+		}
+		c.lockT(id)
+		_, in := t.readers[h]
+		c.unlockT(id)
+		if in && !c.m.tasks[id].readers[h] {
+			return false
+		}
+	}
+	return true
+}
+
+// quiesce polls until the executor shows the mirror's counters, then reads the real running
+// set and the real channel order, which the mirror adopts. pushed = tasks the last completion
+// made executable; the returned order is the order in which they were sent (those already
+// dequeued first).
+func (c *c08Case) quiesce(pushed []int) (string, []int) {
+	wantRun, wantQ := len(c.m.running()), len(c.m.queue)
+	wantOut := 0
 	for i := range c.m.tasks {
 		if !c.m.executed(i) {
 			wantOut++
@@ -242,8 +397,56 @@ func (c *c08Case) quiesce() string {
 	deadline := time.Now().Add(c08Timeout)
 	for spins := 0; ; spins++ {
 		got, q := c.observe()
-		if q == wantQ && c08Set(got) == ws && (!c08WGOK || c08WGCount(&c.e.outstanding) == wantOut) {
-			return fmt.Sprintf("started=%s q=%d", ws, q)
+		errSet := c.e.err.Load() != nil
+		if q == wantQ && len(got) == wantRun && errSet == (c.m.err != "") &&
+			(!c08WGOK || c08WGCount(&c.e.outstanding) == wantOut) && c.deregVisible() {
+			// the reads above are not one snapshot: accept only if a second look agrees
+			if got2, q2 := c.observe(); q2 != q || c08Set(got2) != c08Set(got) {
+				continue
+			}
+			// read the channel (nobody receives: the queue is non-empty only when every worker is busy)
+			var ch []*task
+			for i := 0; i < q; i++ {
+				ch = append(ch, <-c.e.executable)
+			}
+			var qo []int
+			for _, t := range ch {
+				c.e.executable <- t
+				qo = append(qo, t.id)
+			}
+			exp := append(append([]int{}, c.m.running()...), c.m.queue...)
+			obs := append(append([]int{}, got...), qo...)
+			sort.Ints(exp)
+			sort.Ints(obs)
+			if c08Set(exp) != c08Set(obs) {
+				c.viol("quiescence-mismatch", "executor shows started=%s queue=%s, sequential mirror expects the set %s", c08Set(got), c08Set(qo), c08Set(exp))
+				c.hung = true
+				return fmt.Sprintf("started=%s q=%d | %s", c08Set(got), q, c.dump()), nil
+			}
+			// adopt the observed split / order
+			for _, id := range got {
+				c.m.tasks[id].status = 2
+			}
+			for _, id := range qo {
+				c.m.tasks[id].status = 1
+			}
+			c.m.queue = qo
+			var order []int
+			inP := map[int]bool{}
+			for _, p := range pushed {
+				inP[p] = true
+			}
+			for _, id := range got {
+				if inP[id] {
+					order = append(order, id)
+				}
+			}
+			for _, id := range qo {
+				if inP[id] {
+					order = append(order, id)
+				}
+			}
+			return fmt.Sprintf("started=%s q=%d | %s", c08Set(got), q, c.dump()), order
 		}
 		if spins < 200 {
 			runtime.Gosched()
@@ -251,15 +454,14 @@ func (c *c08Case) quiesce() string {
 			time.Sleep(50 * time.Microsecond)
 		}
 		if time.Now().After(deadline) {
-			c.viol("quiescence-mismatch", "executor shows started=%s q=%d, sequential mirror expects started=%s q=%d", c08Set(got), q, ws, wantQ)
+			c.viol("quiescence-mismatch", "executor shows started=%s q=%d outstanding=%d err=%v, sequential mirror expects #started=%d q=%d outstanding=%d err=%q",
+				c08Set(got), q, c08WGCount(&c.e.outstanding), errSet, wantRun, wantQ, wantOut, c.m.err)
 			c.hung = true
-			// the log so far may already contradict the property itself (a task running
-			// while an earlier conflicting one has not ended)
+			c08Timeout = 2 * time.Second
 			c.mu.Lock()
 			c08Oracle(c.r, c.keys, append([]c08Ev(nil), c.log...), nil, true, false, true)
 			c.mu.Unlock()
-			c08Timeout = 2 * time.Second
-			return fmt.Sprintf("started=%s q=%d", c08Set(got), q)
+			return fmt.Sprintf("started=%s q=%d", c08Set(got), q), nil
 		}
 	}
 }
@@ -348,15 +550,18 @@ func (c *c08Case) finish(gated bool) {
 	if c == nil {
 		return
 	}
+	if c.m.held >= 0 && c.ptr[c.m.held] != nil {
+		c.ptr[c.m.held].l.Unlock()
+		c.m.held = -1
+	}
 	c.mu.Lock()
-	for i, g := range c.gates {
+	for _, g := range c.gates {
 		if g != nil {
 			select {
 			case <-g:
 			default:
 				close(g)
 			}
-			c.gates[i] = g
 		}
 	}
 	c.mu.Unlock()
@@ -513,12 +718,22 @@ func c08Generate(r *verifh.Run) []string {
 		// failure and stop
 		"case 1", "run 0:5", "run 0:5", "run 1:1", "rel 0 1", "rel 0 0", "wait",
 		"case 3", "run 0:5", "run 0:1", "run 1:5", "stop", "run 1:1", "rel 0 0", "rel 0 0", "rel 0 0", "wait",
-		// tasks queued AFTER a failure / stop are registered and skipped: reader then writer of a
-		// key whose owner is executed / skipped, writer then reader, two keys
+		// tasks queued AFTER a failure / stop are registered and skipped
 		"case 2", "run 0:5", "run 0:5", "rel 0 1", "run 0:1", "run 0:5", "run 0:1", "run 0:5", "wait",
 		"case 1", "run 0:5", "stop", "rel 0 0", "run 0:1", "run 0:1", "run 0:5", "run 0:7", "wait",
 		"case 4", "run 0:5 1:1", "run 1:5", "rel 0 1", "rel 0 0", "run 0:1 1:1", "run 1:5", "run 0:3", "run 0:1", "wait",
 		"case 2", "run 0:1", "run 0:1", "stop", "run 0:5", "rel 0 0", "rel 0 0", "run 0:1", "run 0:5", "wait",
+		// several tasks made executable by one completion with fewer free workers: send order observed
+		"case 1", "run 0:5", "run 0:1", "run 0:1", "run 0:1", "run 1:5", "rel 0 0", "rel 0 0", "rel 0 0", "rel 0 0", "rel 0 0", "wait",
+		"case 2", "run 0:5 1:5", "run 0:1", "run 1:1", "run 0:1", "run 1:1", "rel 0 0", "rel 0 0", "rel 0 0", "rel 0 0", "rel 0 0", "wait",
+		// a reader finishing while a writer enqueues: reader 1 has deregistered from task 0 but its
+		// notification section is blocked (hold); writer 2 is registered in that window
+		"case 4", "run 0:5", "run 0:1", "rel 0 0", "hold 0", "rel 0 0", "run 0:5", "run 0:1", "unhold", "rel 0 0", "rel 0 0", "wait",
+		// same while the owner is still running; and a second completion overtaking the held one
+		"case 4", "run 0:5", "run 0:1", "run 0:1", "rel 0 0", "hold 0", "rel 0 0", "rel 0 0", "run 0:5", "unhold", "rel 0 0", "wait",
+		"case 3", "run 0:5 1:5", "run 0:1", "run 1:1", "rel 0 0", "hold 1", "rel 1 0", "run 1:5", "run 0:5", "rel 0 0", "unhold", "rel 0 0", "rel 0 0", "wait",
+		// the held task has dependents of its own: they are released only by unhold
+		"case 4", "run 0:5", "run 0:5", "run 0:1", "hold 0", "rel 0 0", "run 1:5", "run 0:1", "unhold", "rel 0 0", "rel 0 0", "rel 0 0", "wait",
 	}
 	ncases := r.N(2500, 60000)
 	for c := 0; c < ncases; c++ {
@@ -539,11 +754,26 @@ func c08Generate(r *verifh.Run) []string {
 		lines = append(lines, fmt.Sprintf("case %d", w))
 		failing := g.Chance(30)
 		stopping := g.Chance(10)
-		early := g.Chance(50) // releases interleaved with registration
+		early := g.Chance(50)   // releases interleaved with registration
+		holding := g.Chance(35) // half-finished completions interleaved with registration
 		rels := 0
 		for i := 0; i < nt; i++ {
 			lines = append(lines, strings.TrimSpace("run "+c08GenKeys(g, nk)))
 			for early && g.Chance(35) {
+				if holding && g.Chance(40) {
+					x := g.Intn(64)
+					lines = append(lines, fmt.Sprintf("hold %d", x), fmt.Sprintf("rel %d 0", x))
+					for k, n := 0, 1+g.Intn(3); k < n; k++ {
+						kk := g.Intn(nk)
+						lines = append(lines, fmt.Sprintf("run %d:%d", kk, c08Perms[g.Intn(len(c08Perms))]))
+						if g.Chance(30) {
+							lines = append(lines, c08Rel(g, false))
+						}
+					}
+					lines = append(lines, "unhold")
+					rels++
+					continue
+				}
 				lines = append(lines, c08Rel(g, failing))
 				rels++
 			}
@@ -558,8 +788,7 @@ func c08Generate(r *verifh.Run) []string {
 			}
 		}
 		if g.Chance(30) {
-			// keep queueing after a failure / stop has been observed: everything is skipped, but
-			// registration (reader then writer of the same key, …) must still work and Wait return
+			// keep queueing after a failure / stop has been observed
 			if g.Chance(50) {
 				lines = append(lines, strings.TrimSpace("run "+c08GenKeys(g, nk)), fmt.Sprintf("rel %d 1", g.Intn(64)))
 			} else {
@@ -601,6 +830,14 @@ func c08Rel(g *verifh.RNG, failing bool) string {
 	return fmt.Sprintf("rel %d %d", g.Intn(64), f)
 }
 
+// c08MaxDeps: maxDependencies passed to New (the Lean driver uses the same rule)
+func c08MaxDeps(w int) int64 {
+	if w%2 == 0 {
+		return 64
+	}
+	return 1 << 20
+}
+
 func TestVerifC08(t *testing.T) {
 	r := verifh.Start("C08")
 	defer r.Finish()
@@ -613,9 +850,19 @@ func TestVerifC08(t *testing.T) {
 	}
 	var c *c08Case
 	broken := false
+	emit := func(l, out string, order []int, pushed []int) {
+		if len(pushed) >= 2 && order != nil {
+			l += " | " + c08Set(order) // observed send order, consumed by the Lean driver
+			r.Count("order-observed")
+		}
+		r.Emit(l, out)
+	}
 	for _, l := range lines {
 		if broken {
 			break // a hang was reported; goroutines of that case may be stuck
+		}
+		if i := strings.Index(l, "|"); i >= 0 {
+			l = strings.TrimSpace(l[:i]) // observed order of an earlier run: re-observed now
 		}
 		f := verifh.Fields(l)
 		if len(f) == 0 {
@@ -636,8 +883,8 @@ func TestVerifC08(t *testing.T) {
 				broken = true
 				continue
 			}
-			c = &c08Case{r: r, workers: w, running: map[int]bool{}, m: &c08Mirror{nodes: map[int]int{}}}
-			c.e = New(64, w, 1<<20, nil)
+			c = &c08Case{r: r, workers: w, running: map[int]bool{}, m: &c08Mirror{workers: w, nodes: map[int]int{}, held: -1}}
+			c.e = New(64, w, c08MaxDeps(w), nil)
 			r.Emit(l, "ok")
 			c.start = r.Line()
 			r.Count("workers:" + strconv.Itoa(w))
@@ -657,12 +904,12 @@ func TestVerifC08(t *testing.T) {
 				r.Emit(l, "bad-op")
 				continue
 			}
-			if c.aborted {
-				r.Emit(l, "skip")
-				continue
-			}
 			if c.m.waited {
 				r.Emit(l, "not-enabled")
+				continue
+			}
+			if c.m.needsHeld(ks) {
+				r.Emit(l, "blocked-by-hold") // Run would block on the lock the harness holds
 				continue
 			}
 			id := len(c.keys)
@@ -671,6 +918,7 @@ func TestVerifC08(t *testing.T) {
 			c.gates = append(c.gates, make(chan struct{}))
 			c.fails = append(c.fails, false)
 			c.mu.Unlock()
+			c.ptr = append(c.ptr, nil)
 			if p := c08SafeRun(c.e, c08Keys(ks), c.body(id)); p != nil {
 				key := "run-panics"
 				if c.m.err != "" {
@@ -681,18 +929,25 @@ func TestVerifC08(t *testing.T) {
 				c.hung = true // the panic left task locks held: the executor cannot be used further
 				break
 			}
+			if len(ks) > 0 {
+				c.ptr[id] = c.find(id, ks)
+			}
 			c.m.run(ks)
-			c.m.settle(c.workers)
-			r.Emit(l, fmt.Sprintf("t=%d %s", id, c.quiesce()))
+			c.m.settle()
+			out, _ := c.quiesce(nil)
+			r.Emit(l, fmt.Sprintf("t=%d %s", id, out))
 			r.Count(fmt.Sprintf("nkeys:%d", len(ks)))
+			if c.m.held >= 0 {
+				r.Count("run-during-hold")
+			}
 		case f[0] == "rel" && len(f) == 3 && (f[2] == "0" || f[2] == "1"):
 			rr, err := strconv.Atoi(f[1])
 			if err != nil || rr < 0 {
 				r.Emit(l, "bad-op")
 				continue
 			}
-			if c.aborted {
-				r.Emit(l, "skip")
+			if c.m.waited {
+				r.Emit(l, "not-enabled")
 				continue
 			}
 			run := c.m.running()
@@ -700,46 +955,88 @@ func TestVerifC08(t *testing.T) {
 				r.Emit(l, "none")
 				continue
 			}
-			if c.m.waited {
-				r.Emit(l, "not-enabled")
-				continue
-			}
 			j := run[rr%len(run)]
 			fail := f[2] == "1"
-			free := c.workers - (len(run) - 1)
-			q := len(c.m.queue)
+			if c.m.held >= 0 && (fail || c.m.tasks[j].reading[c.m.held]) {
+				// its deregistration from the held task (or, after an error, that of a skipped
+				// reader of it) would block on the held lock half-way: not driven
+				r.Emit(l, "blocked-by-hold")
+				continue
+			}
 			if fail && c.m.err == "" {
 				c.m.err = "task:" + strconv.Itoa(j)
 			}
-			p := c.m.complete(j, 3)
+			c.m.tasks[j].status, c.m.tasks[j].ran = 5, true
+			c.m.deregAll(j)
+			var pushed []int
+			if j != c.m.held {
+				pushed = c.m.notify(j)
+			} else {
+				r.Count("completion-blocked-by-hold")
+			}
 			c.mu.Lock()
 			c.fails[j] = fail
 			close(c.gates[j])
 			c.mu.Unlock()
-			slots := free - q
-			if slots < 0 {
-				slots = 0
+			c.m.settle()
+			out, order := c.quiesce(pushed)
+			if c.m.err != "" {
+				pushed = nil // everything is skipped: the order is immaterial
 			}
-			if c.m.err == "" && p >= 2 && p > slots {
-				// the order in which `range t.blocked` sends the p tasks is not determined: the
-				// case is abandoned (oracle still runs on its log)
-				c.aborted = true
-				r.Emit(l, fmt.Sprintf("rel=%d ambiguous", j))
-				r.Count("ambiguous")
-				continue
-			}
-			c.m.settle(c.workers)
-			r.Emit(l, fmt.Sprintf("rel=%d %s", j, c.quiesce()))
+			emit(l, fmt.Sprintf("rel=%d %s", j, out), order, pushed)
 			if fail {
 				r.Count("fail")
 			}
-		case f[0] == "stop" && len(f) == 1:
-			if c.aborted {
-				r.Emit(l, "skip")
+		case f[0] == "hold" && len(f) == 2:
+			rr, err := strconv.Atoi(f[1])
+			if err != nil || rr < 0 {
+				r.Emit(l, "bad-op")
 				continue
 			}
 			if c.m.waited {
 				r.Emit(l, "not-enabled")
+				continue
+			}
+			run := c.m.running()
+			if len(run) == 0 || c.m.held >= 0 || c.m.err != "" {
+				r.Emit(l, "none")
+				continue
+			}
+			j := run[rr%len(run)]
+			if len(c.keys[j]) == 0 || c.ptr[j] == nil {
+				r.Emit(l, "none")
+				continue
+			}
+			c.ptr[j].l.Lock() // the body is gated: nobody else holds or wants t.l now
+			c.m.held = j
+			r.Emit(l, fmt.Sprintf("held=%d", j))
+			r.Count("hold")
+		case f[0] == "unhold" && len(f) == 1:
+			if c.m.held < 0 {
+				r.Emit(l, "none")
+				continue
+			}
+			j := c.m.held
+			var pushed []int
+			pendingNotify := c.m.tasks[j].status == 5
+			c.ptr[j].l.Unlock()
+			c.m.held = -1
+			if pendingNotify {
+				pushed = c.m.notify(j)
+			}
+			c.m.settle()
+			out, order := c.quiesce(pushed)
+			if c.m.err != "" {
+				pushed = nil
+			}
+			emit(l, fmt.Sprintf("unheld=%d %s", j, out), order, pushed)
+		case f[0] == "stop" && len(f) == 1:
+			if c.m.waited {
+				r.Emit(l, "not-enabled")
+				continue
+			}
+			if c.m.held >= 0 {
+				r.Emit(l, "blocked-by-hold")
 				continue
 			}
 			c.mu.Lock()
@@ -749,19 +1046,16 @@ func TestVerifC08(t *testing.T) {
 			if c.m.err == "" {
 				c.m.err = "stopped"
 			}
-			c.m.settle(c.workers)
-			r.Emit(l, c.quiesce())
+			c.m.settle()
+			out, _ := c.quiesce(nil)
+			r.Emit(l, out)
 			r.Count("stop")
 		case f[0] == "wait" && len(f) == 1:
-			if c.aborted {
-				r.Emit(l, "skip")
-				continue
-			}
 			if c.m.waited {
 				r.Emit(l, "not-enabled")
 				continue
 			}
-			if !c.m.allExecuted() {
+			if c.m.held >= 0 || !c.m.allExecuted() {
 				r.Emit(l, "notready")
 				continue
 			}
@@ -774,14 +1068,17 @@ func TestVerifC08(t *testing.T) {
 					ranSet[ev.id] = true
 				}
 			}
-			var ran []int
-			for i := range ranSet {
-				ran = append(ran, i)
+			var ran, skipped []int
+			for i := range c.keys {
+				if ranSet[i] {
+					ran = append(ran, i)
+				} else {
+					skipped = append(skipped, i)
+				}
 			}
-			sort.Ints(ran)
 			sig := fmt.Sprintf("%d|%v|%s", c.workers, c.keys, res)
 			c.mu.Unlock()
-			r.Emit(l, fmt.Sprintf("wait=%s ran=%s", res, c08Set(ran)))
+			r.Emit(l, fmt.Sprintf("wait=%s ran=%s skipped=%s", res, c08Set(ran), c08Set(skipped)))
 			if len(c.keys) >= 3 {
 				r.Distinct(sig)
 			}
